@@ -29,8 +29,10 @@ class Rig(object):
     def __init__(self, d, rng, k):
         self.dir = d / ('w%d' % (k % 20))
         shutil.rmtree(self.dir, ignore_errors=True)
-        ds = D.random_dense(rng, ns=int(rng.randint(6, 14)), nt=3, nc=4, nsw=3, raw=True,
-                            whitening=['none', 'monomial'][k % 2])
+        # every other dataset has a very low sampling rate (1/64 Hz: 600 s chunks of 9 samples), so that the
+        # recording spans several trace chunks and exported windows cross chunk boundaries
+        ds = D.random_dense(rng, ns=int(rng.randint(6, 14)), nt=3, nc=4, nsw=[3, 4][k % 2], raw=True,
+                            whitening=['none', 'monomial'][k % 2], rate=[1024, 0.015625][(k // 2) % 2])
         ds['sc'] = None
         self.ds = ds
         self.params = D.write_dataset(self.dir, ds, naming='ks', col1=bool(k % 2))
